@@ -73,8 +73,19 @@ func (self *Interpreter) callFunc(span errors.Span, val value.Value, args []ast.
 	case value.ClosureValueKind:
 		closure := val.(value.ValueClosure)
 
+		// The arguments belong to the caller: they are evaluated in its scopes, every parameter owns its value
+		argsOut := make(map[string]*value.Value)
+		for _, arg := range args {
+			argVal, i := self.expression(arg.Expression)
+			if i != nil {
+				return nil, i
+			}
+			argCell := *argVal
+			argsOut[arg.Name] = &argCell
+		}
+
 		// push a scope into the closure
-		closure.Scopes = append(closure.Scopes, make(map[string]*value.Value))
+		closure.Scopes = append(closure.Scopes, argsOut)
 		self.callStackSize++
 
 		// use the closure's scopes as the scopes of the current module
@@ -94,15 +105,6 @@ func (self *Interpreter) callFunc(span errors.Span, val value.Value, args []ast.
 			// restore scopes
 			self.currentModule.scopes = scopesPrev
 		}()
-
-		for _, arg := range args {
-			argVal, i := self.expression(arg.Expression)
-			if i != nil {
-				return nil, i
-			}
-
-			closure.Scopes[len(closure.Scopes)-1][arg.Name] = argVal
-		}
 
 		val, i := self.block(closure.Block, false)
 		if i != nil {
